@@ -1,7 +1,14 @@
 package models
 
-import "unicode"
+import (
+	"math"
+	"unicode"
+)
 
 // verifUnicodeIsPrint: natively the real unicode.IsPrint; the engine replaces calls to it by
 // the interval intrinsic built from the host's unicode tables.
 func verifUnicodeIsPrint(r rune) bool { return unicode.IsPrint(r) }
+
+func verifNaN() float64           { return math.NaN() }
+func verifInf() float64           { return math.Inf(1) }
+func verifSignbit(x float64) bool { return math.Signbit(x) }
